@@ -9,11 +9,69 @@ use serde_json::{json, Value};
 use std::sync::atomic::{AtomicU64, Ordering};
 use std::sync::Mutex;
 
+thread_local! {
+    /// Memory layout in which the NEXT library calls of this thread receive their sample array (0 = standard).
+    pub static LAYOUT: std::cell::Cell<u8> = const { std::cell::Cell::new(0) };
+}
+pub const LAYOUT_NAMES: [&str; 5] = [
+    "standard (row-major) array",
+    "Fortran-ordered array",
+    "axis-permuted view of a draws-major buffer",
+    "axis-permuted view of a params-major buffer",
+    "strided view (every other draw of a longer buffer, walked backwards)",
+];
+pub fn with_layout<R>(l: u8, f: impl FnOnce() -> R) -> R {
+    let old = LAYOUT.with(|c| c.replace(l));
+    let r = f();
+    LAYOUT.with(|c| c.set(old));
+    r
+}
+pub fn case_with_layout(case: &Value, l: u8) -> Value {
+    let mut c = case.clone();
+    if l != 0 {
+        c["layout"] = json!(l);
+        c["layout_name"] = json!(LAYOUT_NAMES[l as usize]);
+    }
+    c
+}
+/// Hand the SAME logical (chain, draw, param) array to `f` as a view in the thread's current LAYOUT.
+pub fn view_in_layout<R>(a: &Arr3, f: impl FnOnce(ndarray::ArrayView3<f32>) -> R) -> R {
+    use ndarray::{s, Array3, ShapeBuilder};
+    let (c, n, p) = arr3_dims(a);
+    match LAYOUT.with(|l| l.get()) {
+        0 => f(to_nd(a).view()),
+        1 => {
+            let mut m = Array3::<f32>::zeros((c, n, p).f());
+            for i in 0..c { for j in 0..n { for k in 0..p { m[[i, j, k]] = a[i][j][k]; } } }
+            f(m.view())
+        }
+        2 => {
+            let mut m = Array3::<f32>::zeros((n, c, p));
+            for i in 0..c { for j in 0..n { for k in 0..p { m[[j, i, k]] = a[i][j][k]; } } }
+            f(m.view().permuted_axes([1, 0, 2]))
+        }
+        3 => {
+            let mut m = Array3::<f32>::zeros((p, n, c));
+            for i in 0..c { for j in 0..n { for k in 0..p { m[[k, j, i]] = a[i][j][k]; } } }
+            f(m.view().permuted_axes([2, 1, 0]))
+        }
+        _ => {
+            // draws live at the odd positions of a buffer of 2n+1 draws, in reverse order; the even positions hold junk
+            let mut m = Array3::<f32>::from_elem((c, 2 * n + 1, p), 7.0e3);
+            for i in 0..c { for j in 0..n { for k in 0..p { m[[i, 1 + 2 * (n - 1 - j), k]] = a[i][j][k]; } } }
+            let v = m.view();
+            let v = v.slice(s![.., 1..2 * n;-2, ..]);
+            f(v)
+        }
+    }
+}
+
 pub fn impl_split(a: &Arr3) -> Result<(Vec<f32>, Vec<f32>), String> {
-    let nd = to_nd(a);
     catch(|| {
-        let (r, e) = split_rhat_mean_ess(nd.view());
-        (r.to_vec(), e.to_vec())
+        view_in_layout(a, |v| {
+            let (r, e) = split_rhat_mean_ess(v);
+            (r.to_vec(), e.to_vec())
+        })
     })
 }
 
@@ -366,10 +424,12 @@ fn summary_cases(ctx: &Ctx) {
 
 /// RunStats::from agrees with summary of the per-parameter diagnostics of the same array.
 fn check_runstats(ctx: &Ctx, a: &Arr3, case: &Value) {
-    let nd = to_nd(a);
     ctx.evals(1);
     ctx.transitions(1);
-    let rs = match catch(|| RunStats::from(nd.view())) {
+    let lay = LAYOUT.with(|l| l.get());
+    // non-standard layouts may legitimately change the summation order inside the diagnostics by an f32 rounding
+    let eq = |got: f32, want: f64, scale: f64| if lay == 0 { got as f64 == want } else { (got as f64 - want).abs() <= 1e-4 * scale };
+    let rs = match catch(|| view_in_layout(a, |v| RunStats::from(v))) {
         Ok(r) => r,
         Err(m) => {
             ctx.violation(Violation::new("C11:runstats-panic", format!("RunStats::from panicked: {m}"), case.clone()));
@@ -388,10 +448,10 @@ fn check_runstats(ctx: &Ctx, a: &Arr3, case: &Value) {
         let scale = s[n - 1].abs().max(s[0].abs()).max(1e-30);
         let mids: Vec<f64> = if n % 2 == 1 { vec![s[n / 2]] } else { vec![s[n / 2 - 1], s[n / 2]] };
         let mut bad = vec![];
-        if bs.min as f64 != s[0] {
+        if !eq(bs.min, s[0], scale) {
             bad.push(format!("min {} != {}", bs.min, s[0]));
         }
-        if bs.max as f64 != s[n - 1] {
+        if !eq(bs.max, s[n - 1], scale) {
             bad.push(format!("max {} != {}", bs.max, s[n - 1]));
         }
         if (bs.mean as f64 - mean(&f)).abs() > 1e-5 * scale {
@@ -400,7 +460,7 @@ fn check_runstats(ctx: &Ctx, a: &Arr3, case: &Value) {
         if n >= 2 && (bs.std as f64 - std1(&f)).abs() > 1e-4 * scale.max(std1(&f)) {
             bad.push(format!("std {} != {}", bs.std, std1(&f)));
         }
-        if !mids.iter().any(|x| *x == bs.median as f64) {
+        if !mids.iter().any(|x| eq(bs.median, *x, scale)) {
             bad.push(format!("median {} not in {:?}", bs.median, mids));
         }
         if !bad.is_empty() {
@@ -412,7 +472,7 @@ fn check_runstats(ctx: &Ctx, a: &Arr3, case: &Value) {
 
 pub fn run(ctx: &Ctx) {
     let conv = Conv::new();
-    ctx.rule("(i) ALL arrays over {-1,0,1,2} for the listed small shapes (exhaustive), (ii) fixed structured families (iid, AR(1), trending, bimodal, switching, far-apart, constant-parameter; listed shapes up to 16 chains x 5000 draws x 8 params; enumerated, NOT exhaustive over the reals), (iii) metamorphic variants (affine, all chain permutations <=4 chains, other-parameter edits, separation ladder), (iv) run-summary vectors (all finite vectors over a 4-letter alphabet up to the stated length; NaN at every subset of positions up to length 8; periodic NaNs up to the stated length). non-trivial = W>0 for the compared parameter; distinct by input hash. states = distinct input arrays/vectors, transitions = implementation evaluations");
+    ctx.rule("(i) ALL arrays over {-1,0,1,2} for the listed small shapes (exhaustive), (ii) fixed structured families (iid, AR(1), trending, bimodal, switching, far-apart, constant-parameter; listed shapes up to 16 chains x 5000 draws x 8 params; enumerated, NOT exhaustive over the reals), (iii) metamorphic variants (every family member <= 1023 draws and every array of the small exhaustive shapes again as Fortran-ordered array, two axis-permuted views and a reversed strided view; affine, all chain permutations <=4 chains, other-parameter edits, separation ladder), (iv) run-summary vectors (all finite vectors over a 4-letter alphabet up to the stated length; NaN at every subset of positions up to length 8; periodic NaNs up to the stated length). non-trivial = W>0 for the compared parameter; distinct by input hash. states = distinct input arrays/vectors, transitions = implementation evaluations");
     // (i) exhaustive small arrays
     let shapes = exhaustive_shapes(ctx.tier.thorough());
     ctx.extra("exhaustive_shapes", json!(shapes.iter().map(|s| format!("{}x{}x{} ({} arrays)", s.0, s.1, s.2, n_arrays(*s))).collect::<Vec<_>>()));
@@ -430,6 +490,11 @@ pub fn run(ctx: &Ctx) {
                 hs.push(h);
                 if check_array(ctx, &conv, &a, &case).is_some() && split_stats(&half_chains(&a, 0), 0).w > 0.0 {
                     nontrivial.push(h);
+                }
+                if total <= 65536 || ctx.tier.thorough() && total <= (1 << 20) {
+                    for l in 1..LAYOUT_NAMES.len() as u8 {
+                        with_layout(l, || check_array(ctx, &conv, &a, &case_with_layout(&case, l)));
+                    }
                 }
             }
             ctx.states_bulk(hs);
@@ -456,6 +521,19 @@ pub fn run(ctx: &Ctx) {
         }
         if sp.params >= 2 || sp.seed % 5 == 0 {
             check_runstats(ctx, &a, &case);
+        }
+        // the same logical array handed over in every other memory layout an ArrayView3 can have
+        if sp.draws <= 1023 {
+            for l in 1..LAYOUT_NAMES.len() as u8 {
+                let lc = case_with_layout(&case, l);
+                with_layout(l, || {
+                    check_array(ctx, &conv, &a, &lc);
+                    if sp.params >= 2 || sp.seed % 5 == 0 {
+                        check_runstats(ctx, &a, &lc);
+                    }
+                });
+                ctx.outcome("layout-variant-checked", 1);
+            }
         }
     });
     // wide arrays (many parameters, some constant => NaN diagnostics) through the run summary
@@ -487,6 +565,10 @@ pub fn run(ctx: &Ctx) {
 }
 
 pub fn check_case(ctx: &Ctx, case: &Value) {
+    let l = case["layout"].as_u64().unwrap_or(0) as u8;
+    with_layout(l, || check_case_inner(ctx, case))
+}
+fn check_case_inner(ctx: &Ctx, case: &Value) {
     let conv = Conv::new();
     if let Some(e) = case.get("exhaustive") {
         let sh = &e["shape"];
